@@ -1310,8 +1310,9 @@ func (e *ObjectConsKeyExpr) literalName() string {
 
 func (e *ObjectConsKeyExpr) walkChildNodes(w internalWalkFunc) {
 	// We only treat our wrapped expression as a real expression if we're
-	// not going to interpret it as a literal.
-	if e.literalName() == "" {
+	// not going to interpret it as a literal, which Value never does when
+	// ForceNonLiteral is set.
+	if e.ForceNonLiteral || e.literalName() == "" {
 		w(e.Wrapped)
 	}
 }
